@@ -39,3 +39,19 @@ ob("hist_new_group", ["C08", "C13"], entry="h_hist_new_group", defines=["LH_POOL
 ob("hist_new_group_c16", ["C16"], entry="h_hist_new_group", defines=["LH_POOL", "LIFE_C16"],
    bound="new empty group; vgp.c's malloc served from typed static objects; 2 handles", **HN)
 ob("hist_no_edit", ["C08", "C13"], entry="h_hist_no_edit", bound="group of <= 2 members; 2 handles; file writable or read-only", **HN)
+
+# ---------------------------------------------------------------------------- vg.c: Vlone / VSlone
+VTR = ["V-layer model (units/vg_lone_u.c): Vgetid/VSgetid walk tables of <= 3 refs, Vattach/Vdetach count, Vntagrefs/Vgettagref read "
+       "member arrays of the attached vgroup (the real functions are under contract in vgp_u.c)"]
+LONE = dict(unit="vg_lone_u.c", file="hdf/src/vg.c", entry="h_lone", mode="bounded", loops=True, loopcls="P", unwind=5, cex_unwind=8,
+            objbits=10, trusted=VTR)
+BM = ("<= 3 vgroups / <= 3 enumerated objects in the file (table loops unwound); member count per vgroup symbolic up to 65535 and the "
+      "65535-entry scan closed by loop contracts; refs <= 65534 (65535: *_maxref)")
+BE = "<= 3 vgroups / objects, <= 3 members per vgroup, asize <= 4 (exact reference model; only the 65535-entry scan under a loop contract); refs <= 65534"
+ob("Vlone_members", "C08", nloops=2, bound=BM, **LONE)
+ob("Vlone_exact", "C08", nloops=1, defines=["VL_EXACT"], bound=BE, **LONE)
+ob("VSlone_members", "C08", nloops=2, defines=["VL_VS"], bound=BM, **LONE)
+ob("VSlone_exact", "C08", nloops=1, defines=["VL_VS", "VL_EXACT"], bound=BE, **LONE)
+# the largest ref (Hnewref hands out 65535): the work area has MAX_REF = 65535 entries
+ob("Vlone_maxref", "C08", nloops=1, defines=["VL_EXACT", "VL_REFMAX=65535"], bound=BE.replace("refs <= 65534", "refs <= 65535"), **LONE)
+ob("VSlone_maxref", "C08", nloops=1, defines=["VL_VS", "VL_EXACT", "VL_REFMAX=65535"], bound=BE.replace("refs <= 65534", "refs <= 65535"), **LONE)
